@@ -6,7 +6,7 @@ import vlib, gen_mhupdate, gen_mhfin, gen_murmur, gen_mhinit
 THMS_TAIL = ["IsalVerif.GenProps.MhTail.all_canon", "IsalVerif.GenProps.MhTail.all_count", "IsalVerif.GenProps.MhTail.mhtail_current",
              "IsalVerif.MhTailC.canon_tail", "IsalVerif.MhTailC.tailBlocks_is_standard", "IsalVerif.GenProps.MhTail.mhtail_is_standard"]
 THMS_MUR = ["IsalVerif.GenProps.Murmur.all_canon", "IsalVerif.GenProps.Murmur.both_present", "IsalVerif.GenProps.Murmur.murblock_current",
-            "IsalVerif.GenProps.Murmur.murtail_current", "IsalVerif.MurC.canon_block_step", "IsalVerif.MurC.canon_tail_arith",
+            "IsalVerif.GenProps.Murmur.murtail_current", "IsalVerif.GenProps.Murmur.murloop_current", "IsalVerif.MurC.canon_block_loop", "IsalVerif.MurC.canon_block_step", "IsalVerif.MurC.canon_tail_arith",
             "IsalVerif.MurC.murmurTail_eq"]
 THMS_INIT = ["IsalVerif.GenProps.MhInit.all_canon", "IsalVerif.GenProps.MhInit.all_present", "IsalVerif.GenProps.MhInit.stitched_init_current",
              "IsalVerif.GenProps.MhInit.mh_init_current", "IsalVerif.MhInitC.canon_sha1", "IsalVerif.MhInitC.canon_sha256",
